@@ -425,6 +425,54 @@ theorem cloneAs_same {ν : Type} (io : NumIO ν) (g : Grid ν) : cloneAs io g g.
     (List.map_congr_left (fun r _ => hr r)).trans (List.map_id _)
   rw [hd]
 
+/-! ## 6b. histories: any sequence of edits between two exports -/
+
+/-- admissible edits (item writes, fills, data re-assignments of the grid's shape and dtype, re-assignment of name,
+comment, corner, cell size, no-data value) keep the grid inside the property's domain, for histories of any length -/
+theorem edits_preserve_gridOK {ν : Type} (io : NumIO ν) (es : List (Edit ν)) : ∀ (g : Grid ν), GridOK io g →
+    (∀ e ∈ es, EditOK io g e) → ∃ g', applyEdits g es = .ok g' ∧ GridOK io g' ∧ SameFrame g g' := by
+  induction es with
+  | nil => intro g hg _; exact ⟨g, rfl, hg, rfl, rfl, rfl, rfl, rfl, rfl⟩
+  | cons e es ih =>
+    intro g hg hes
+    obtain ⟨g1, h1, hg1, hf1⟩ := applyEdit_ok io g hg e (hes e (by simp))
+    obtain ⟨g2, h2, hg2, hf2⟩ := ih g1 hg1 (fun e' he' => editOK_frame io g g1 hf1 e' (hes e' (by simp [he'])))
+    refine ⟨g2, ?_, hg2, ?_⟩
+    · simp only [applyEdits, h1, h2]
+    · obtain ⟨a1, a2, a3, a4, a5, a6⟩ := hf1
+      obtain ⟨b1, b2, b3, b4, b5, b6⟩ := hf2
+      exact ⟨b1.trans a1, b2.trans a2, b3.trans a3, b4.trans a4, b5.trans a5, b6.trans a6⟩
+
+
+/-- **save → edit → save again → load**: after ANY admissible history of edits the files written by `save` load back to
+the CURRENT state (shape, georeferencing, dtype, current no-data value, current cell words) -/
+theorem save_load_after_edits {ν : Type} (io : NumIO ν) (hio : IOok io) (g : Grid ν) (hg : GridOK io g)
+    (es : List (Edit ν)) (hes : ∀ e ∈ es, EditOK io g e) (d : Str) :
+    ∃ g1 h bytes, applyEdits g es = .ok g1 ∧ save io g1 = .ok (h, bytes) ∧ ∃ g2, fromStream io d h (some bytes) = .ok g2 ∧
+      g2.nrows = g1.nrows ∧ g2.ncols = g1.ncols ∧ g2.xll = g1.xll ∧ g2.yll = g1.yll ∧ g2.csz = g1.csz ∧
+      g2.dtype = g1.dtype ∧ g2.nodata = g1.nodata ∧ g2.data = g1.data := by
+  obtain ⟨g1, h1, hg1, _⟩ := edits_preserve_gridOK io es g hg hes
+  obtain ⟨h, bytes, hs, rest⟩ := save_load io hio g1 hg1 d
+  exact ⟨g1, h, bytes, h1, hs, rest⟩
+
+/-- **load / edit → to_dict → from_dict**: after any admissible history the dictionary rebuilds the CURRENT metadata -/
+theorem dict_after_edits {ν : Type} (io : NumIO ν) (g : Grid ν) (hg : GridOK io g)
+    (es : List (Edit ν)) (hes : ∀ e ∈ es, EditOK io g e) :
+    ∃ g1 g2, applyEdits g es = .ok g1 ∧ fromDict io (toDict io g1) = .ok g2 ∧ g2.name = g1.name ∧ g2.comment = g1.comment ∧
+      g2.nrows = g1.nrows ∧ g2.ncols = g1.ncols ∧ g2.xll = g1.xll ∧ g2.yll = g1.yll ∧ g2.csz = g1.csz ∧
+      g2.dtype = g1.dtype ∧ g2.nodata = g1.nodata := by
+  obtain ⟨g1, h1, hg1, _⟩ := edits_preserve_gridOK io es g hg hes
+  obtain ⟨g2, h2, a1, a2, a3, a4, a5, a6, a7, a8, a9, _⟩ :=
+    dict_roundtrip io g1 hg1.header.supported hg1.header.nodata_lt hg1.header.nodata_printable
+      hg1.header.nrows_nonneg hg1.header.ncols_nonneg
+  exact ⟨g1, g2, h1, h2, a1, a2, a3, a4, a5, a6, a7, a8, a9⟩
+
+/-- **clone of a clone, any number of grids**: two grid objects that hold different arrays never see each other's
+writes, whatever the history (every clone / `clone(dtype)` allocates a new array: `cloneAs_independent`) -/
+theorem handles_independent (ops : List SOp) (s : Store) (a b : Handle) (ha : a.arr < s.length) (hb : b.arr < s.length)
+    (hne : a.arr ≠ b.arr) : (applyAll s b ops).1.read a = s.read a :=
+  applyAll_other ops s a b ha hb hne
+
 /-! ## 7. clip -/
 
 section ClipThm
@@ -472,6 +520,81 @@ theorem clip_parent_values (io : NumIO α) (g : Grid α) (hcsz : 0 < g.csz) (hnc
   · rw [hdata]
     exact clip_block_get g.data g.nrows g.ncols _ _ _ _ i j hr hc b0 a1 a2 b3 (by omega) (by omega)
 
+
+/-- the clipped grid is again a well-formed grid with a positive cell size: `clip` can be applied to it -/
+theorem clip_wellformed (io : NumIO α) (g : Grid α) (hcsz : 0 < g.csz) (hnc : 0 < g.ncols)
+    (hr : (g.data.length : Int) = g.nrows) (hc : ∀ r ∈ g.data, (r.length : Int) = g.ncols)
+    {x0 y0 x1 y1 : α} (h0 : InExtent (geom g) x0 y0) (h1 : InExtent (geom g) x1 y1) (hx : x0 ≤ x1) (hy : y0 ≤ y1) :
+    ∃ ng, clip io g x0 y0 x1 y1 = .ok ng ∧ 0 < ng.csz ∧ 0 < ng.ncols ∧ 0 < ng.nrows ∧
+      (ng.data.length : Int) = ng.nrows ∧ ∀ r ∈ ng.data, (r.length : Int) = ng.ncols := by
+  obtain ⟨ng, hclip, hnr, hncols, hcs, _, _, _, _, hdata⟩ := clip_eq io g hcsz hnc hr hc h0 h1 hx hy
+  obtain ⟨v0, _⟩ := coord2cell_of_inExtent (g := geom g) hcsz h0
+  obtain ⟨v1, _⟩ := coord2cell_of_inExtent (g := geom g) hcsz h1
+  obtain ⟨hcol, hrow⟩ := corner_cells_ordered (gm := geom g) hcsz h0 h1 hx hy
+  have hgn : (geom g).ncols = g.ncols := rfl
+  have hgr : (geom g).nrows = g.nrows := rfl
+  rw [hgn] at hcol hrow
+  rw [hgn, hgr] at v0 v1
+  obtain ⟨a0, a1, a2, a3, _⟩ := valid_rowcol hnc v0
+  obtain ⟨b0, b1, b2, b3, _⟩ := valid_rowcol hnc v1
+  refine ⟨ng, hclip, by rw [hcs]; exact hcsz, by omega, by omega, ?_, ?_⟩
+  · rw [hdata, List.length_map, slice_length _ _ _ b0 (by omega) (by omega), hnr]; omega
+  · intro r hrm
+    rw [hdata] at hrm
+    obtain ⟨r0, hr0, rfl⟩ := List.mem_map.mp hrm
+    have hr0' : r0 ∈ g.data := by
+      unfold slice at hr0
+      exact List.mem_of_mem_drop (List.mem_of_mem_take hr0)
+    have := hc r0 hr0'
+    rw [slice_length _ _ _ a2 (by omega) (by omega), hncols]; omega
+
+
+/-- **clip of a clip**: clipping the clipped grid again (second box inside the first clip's extent) still yields the
+block of the ORIGINAL grid at offset (sum of the row offsets, sum of the column offsets): every cell centre is the
+original grid's cell centre and holds the original grid's word -/
+theorem clip_of_clip (io : NumIO α) (g : Grid α) (hcsz : 0 < g.csz) (hnc : 0 < g.ncols)
+    (hr : (g.data.length : Int) = g.nrows) (hc : ∀ r ∈ g.data, (r.length : Int) = g.ncols)
+    {x0 y0 x1 y1 : α} (h0 : InExtent (geom g) x0 y0) (h1 : InExtent (geom g) x1 y1) (hx : x0 ≤ x1) (hy : y0 ≤ y1)
+    (mid : Grid α) (hmid : clip io g x0 y0 x1 y1 = .ok mid)
+    {u0 v0 u1 v1 : α} (k0 : InExtent (geom mid) u0 v0) (k1 : InExtent (geom mid) u1 v1) (hu : u0 ≤ u1) (hv : v0 ≤ v1) :
+    ∃ ng top left, clip io mid u0 v0 u1 v1 = .ok ng ∧ ng.dtype = g.dtype ∧ ng.nodata = g.nodata ∧ ng.csz = g.csz ∧
+      0 < ng.nrows ∧ 0 < ng.ncols ∧ 0 ≤ top ∧ top + ng.nrows ≤ g.nrows ∧ 0 ≤ left ∧ left + ng.ncols ≤ g.ncols ∧
+      ∀ i j : Nat, (i : Int) < ng.nrows → (j : Int) < ng.ncols →
+        (∃ xy, cell2coord (geom ng) (cellOf ng.ncols i j) = some xy ∧
+               cell2coord (geom g) (cellOf g.ncols (top + i) (left + j)) = some xy) ∧
+        (∃ v, (ng.data[i]?.bind (·[j]?)) = some v ∧ (g.data[top.toNat + i]?.bind (·[left.toNat + j]?)) = some v) := by
+  obtain ⟨m', t1, l1, hm', md, mn, mc, _, _, mr0, mc0, t10, t11, l10, l11, hval1⟩ :=
+    clip_parent_values io g hcsz hnc hr hc h0 h1 hx hy
+  obtain ⟨m'', hm'', wcs, wnc, _, wr, wc⟩ := clip_wellformed io g hcsz hnc hr hc h0 h1 hx hy
+  have e1 : m' = mid := by rw [hmid] at hm'; exact (Except.ok.inj hm').symm
+  have e2 : m'' = mid := by rw [hmid] at hm''; exact (Except.ok.inj hm'').symm
+  subst e1
+  subst e2
+  obtain ⟨ng, t2, l2, hng, nd, nn, ncz, _, _, nr0, nc0, t20, t21, l20, l21, hval2⟩ :=
+    clip_parent_values io m'' wcs wnc wr wc k0 k1 hu hv
+  refine ⟨ng, t1 + t2, l1 + l2, hng, nd.trans md, nn.trans mn, ncz.trans mc, nr0, nc0, by omega, by omega, by omega, by omega, ?_⟩
+  intro i j hi hj
+  obtain ⟨⟨xy, c1, c2⟩, ⟨v, d1, d2⟩⟩ := hval2 i j hi hj
+  have hi' : ((t2.toNat + i : Nat) : Int) < m''.nrows := by push_cast; omega
+  have hj' : ((l2.toNat + j : Nat) : Int) < m''.ncols := by push_cast; omega
+  obtain ⟨⟨xy', c3, c4⟩, ⟨v', d3, d4⟩⟩ := hval1 (t2.toNat + i) (l2.toNat + j) hi' hj'
+  have ci : ((t2.toNat + i : Nat) : Int) = t2 + i := by push_cast; omega
+  have cj : ((l2.toNat + j : Nat) : Int) = l2 + j := by push_cast; omega
+  rw [ci, cj] at c3 c4
+  constructor
+  · refine ⟨xy, c1, ?_⟩
+    rw [c3] at c2
+    have : xy' = xy := Option.some.inj c2
+    rw [← this, show t1 + t2 + (i : Int) = t1 + (t2 + i) by ring, show l1 + l2 + (j : Int) = l1 + (l2 + j) by ring]
+    exact c4
+  · refine ⟨v, d1, ?_⟩
+    rw [d3] at d2
+    have : v' = v := Option.some.inj d2
+    rw [← this, show (t1 + t2).toNat + i = t1.toNat + (t2.toNat + i) by omega,
+      show (l1 + l2).toNat + j = l1.toNat + (l2.toNat + j) by omega]
+    exact d4
+
+
 end ClipThm
 
 /-! ## 8. the hypotheses are satisfiable; sample evaluations -/
@@ -481,6 +604,20 @@ open HydroVerif.C07
 
 example : IOok ioToy := ioToy_ok
 example : GridOK ioToy g0 := g0_ok
+/-- an admissible history on `g0`: an item write above 2^53, a fill, a re-assignment of the data, of the comment (two
+lines), of the corner and of the no-data value -/
+example : ∀ e ∈ ([.item 4 9007199254740993, .fill 7, .data [[1, 2, 3], [4, 5, 18446744073709551615]],
+    .comment "a\nb".toList, .georef 1 2 3, .nodata 5] : List (Edit Int)), EditOK ioToy g0 e := by
+  intro e he
+  simp only [List.mem_cons, List.not_mem_nil, or_false] at he
+  rcases he with rfl | rfl | rfl | rfl | rfl | rfl
+  · show (9007199254740993 : Nat) < wordBound g0.dtype; decide
+  · show (7 : Nat) < wordBound g0.dtype; decide
+  · exact ⟨rfl, rfl, by decide, by decide, by decide⟩
+  · trivial
+  · trivial
+  · exact ⟨by decide, fun h => absurd h (by decide)⟩
+
 example : GridOK ioToy g1 :=
   ⟨⟨by decide, by decide, by decide, by decide, fun a v h => by simp [lookup, g1, g0] at h,
     fun _ => ⟨by decide, by decide, 2143289344, by decide, by decide⟩⟩, by decide, by decide, by decide⟩
